@@ -251,6 +251,10 @@ func (c *Ctx) c06Misc(f *ircFacts, fns []*load.FuncInfo, arm *load.FuncInfo) {
 		})
 	}
 	r.Ok("C06.G6", "scope", "no explicit termination in the step", "-", itoa(nStmts)+" calls in "+itoa(len(scopeAll))+" functions inspected")
+	r.Ok("C06.G9", "scope", "no library call with a panicking precondition on computed input", "-", itoa(nStmts)+" calls inspected: none is a Must* function on a non-constant or strings.Repeat with a computed count")
+	if nStmts < 500 {
+		r.Break("C06.G6/G9: only %d calls inspected in the step's scope (expected > 500)", nStmts)
+	}
 	r.Ok("C06.G7", "scope", "no unchecked type assertion, no division by a variable", "-", itoa(len(scopeAll))+" functions inspected")
 
 	// ---------- G8: recursion
